@@ -2,6 +2,7 @@
 #include <stdarg.h>
 #include <stdio.h>
 #include <string.h>
+#include <wchar.h>
 extern void invoke_safe_str_constraint_handler(const char *, void *, int);
 
 int fx_nofilter(const char *fmt, va_list ap) { return vprintf(fmt, ap); }
@@ -12,6 +13,22 @@ int fx_lookbehind(const char *fmt, va_list ap) {
         if ((p - fmt == 0) || *(p - 1) != '%') { invoke_safe_str_constraint_handler("n", 0, 22); return -22; }
     }
     return vprintf(fmt, ap);
+}
+/* the look-behind guard with its first disjunct inverted: a "%n" at offset 0 is let through */
+int fx_lookbehind_start(const char *fmt, va_list ap) {
+    const char *p;
+    if ((p = strstr(fmt, "%n"))) {
+        if ((p - fmt >= 1) && *(p - 1) != '%') { invoke_safe_str_constraint_handler("n", 0, 22); return -22; }
+    }
+    return vprintf(fmt, ap);
+}
+/* wide variant of the sound-shaped guard: pointer difference in elements (sdiv exact) */
+int fx_lookbehind_w(const wchar_t *fmt, va_list ap) {
+    const wchar_t *p;
+    if ((p = wcsstr(fmt, L"%n"))) {
+        if ((p - fmt == 0) || *(p - 1) != L'%') { invoke_safe_str_constraint_handler("n", 0, 22); return -22; }
+    }
+    return vwprintf(fmt, ap);
 }
 int fx_substring(const char *buf, const char *fmt, va_list ap) {
     if (strstr(fmt, "%n")) { invoke_safe_str_constraint_handler("n", 0, 22); return -1; }
